@@ -190,7 +190,7 @@ PROPS["C07"] = dict(
          "(b) generated programs; non-trivial = two archetypes take the locks of two cells in opposite orders and >=1 conflict (non-await) abort was observed; distinct by rendered programs.",
     runs=[
         dict(test="TestC07Model", quick=dict(checks=4000, shards=8, timeout=300), thorough=dict(checks=320000, shards=16, timeout=2400)),
-        dict(test="TestC07Concurrent", race={"thorough": True}, quick=dict(checks=800, shards=8, timeout=300), thorough=dict(checks=48000, shards=16, timeout=3000)),
+        dict(test="TestC07Concurrent", race={"quick": True, "thorough": True}, quick=dict(checks=400, shards=8, timeout=400), thorough=dict(checks=48000, shards=16, timeout=3000)),
     ],
 )
 
